@@ -350,9 +350,13 @@ def plan(tier):
     unknown_type = S.Kind("UNKNOWN_TYPE", st.one_of(st.sampled_from(["mediaretry", "server_sync", "account_sync", "devices", "psa", "disappearing_mode",
                                                                      "privacy_token", "link_code_companion_reg", "business", "pay", "web", "features"]),
                                                     S.TEXT.strategy))
+    # (what such a notification carries is opaque: also blobs well above the size the library abbreviates in its log lines)
+    blob = S.Kind("NOTIFICATION_BLOB", st.one_of(st.binary(min_size=1, max_size=64), st.sampled_from([499, 500, 501, 512, 1024, 3000]).map(
+        lambda n: bytes((i * 13 + 5) & 0xFF for i in range(n)))), is_bytes=True)
     unk = S.N("notification", {"id": S.ID, "from": S.AJID, "type": unknown_type, "t": S.TS, "notify": S.OPT(S.TEXT),
                                "participant": S.OPT(S.JID), "offline": S.OPT(S.WORD("0", "1"))},
-              children=[S.CH(S.N(S.WORD("update", "item", "sync", "devices", "x"), {"k": S.OPT(S.TEXT)}), 0, 1)])
+              children=[S.CH(S.N(S.WORD("update", "item", "sync", "devices", "x"), {"k": S.OPT(S.TEXT)}), 0, 1),
+                        S.CH(S.N(S.WORD("blob", "cert", "data"), {}, data=blob), 0, 1)])
     strategies.append(("notification_unknown", S.shape_strategy(unk).map(lambda t: {"sub": "ack", "kind": "notification_unknown",
                                                                                    "tree": S.tree_to_json(t)}), 4 * n))
     # a recognised type with a child the library has no entity for (the number-change notice <modify>, <hash>, nothing at all)
@@ -401,3 +405,5 @@ def plan(tier):
         "budget_s": 200 if quick else 1800,
         "collect_all": True,
     }
+
+RULE += (' Also: unpresentable content under other stanza types (reaction, poll, pay, newsletter, none); unknown-type notifications carrying blobs of up to 3000 bytes; unpresentable content arriving encrypted (own process, real sessions: direct / group, first contact / after a conversation).')
